@@ -190,6 +190,17 @@ func init() {
 				// schedules: concurrent clients, FIFO judged offline from Created / Start of all jobs + linearizability
 				return linCase(c, "C06")
 			}
+			if c.Idx%8 == 3 {
+				// ... nor on definition reloads while many jobs wait (whether or not the reload touches their pipeline)
+				o.NPipes = 2
+				o.Classes = append(o.Classes, gen.ConfigClass{Concurrency: 1, Limit: -1})
+				o.WReload = 10
+				o.ReloadPipe = "p1" // only the OTHER pipeline is edited / removed / re-added: p0 keeps its definition
+				o.MaxOps = 45
+				o.WSchedule = 55
+				o.FailProb = 0
+				o.Pipe.CyclicProb = 0
+			}
 			if c.Idx%8 == 5 {
 				// start order does not depend on how the runner keeps its job lists: saves with retention reorder / shrink
 				// them while jobs run and wait
